@@ -94,6 +94,17 @@ func VerifC05Serial() {
 				t.Insert(w, &vobj{id: []byte{'N'}})
 				w.Commit()
 				expect[2]++
+				// ... and then a transaction on every table the open one does not hold
+				for i := 0; i < 2; i++ {
+					if w1open && s1&(1<<i) != 0 {
+						continue
+					}
+					wd := db.WriteTxn(tables[i])
+					tables[i].Insert(wd, &vobj{id: []byte{'D', byte(i)}})
+					wd.Commit()
+					expect[i]++
+					vnd.Cover("C05.newtable-then-disjoint-commit")
+				}
 			})
 			vnd.Assert(!blocked, "C05.newtable-never-blocks")
 			vnd.Cover("C05.newtable")
